@@ -135,6 +135,35 @@ def run(ctx):
              "the merge key accumulates the path of the state" if qualified else
              f"'{stmt_text(x)}' recurses with the bare child name and the lookup table is keyed by t.source.name: a transition declared on a "
              f"state is merged into every state of that name at any depth (its sibling _register_states accumulates a dotted prefix)", x)
+    # ---- R7 subclass methods are classified by the object that is registered ------------------------------
+    # MachineLogic subclass methods are routed to guards / services / actions by parameter count.  The count must be
+    # taken of the very callable that is stored (the bound attribute): a count taken of the class-level function and
+    # corrected by a constant is off by one for @staticmethod / @classmethod members, which are then registered in
+    # the wrong table or not at all (the name stays unbound until the transition fires).
+    ml = p.cls("MachineLogic")
+    reg = next((m_ for m_ in ml.methods.values() if any(isinstance(x, ast.Call) and norm(x.func) == "inspect.signature" for x in own_nodes(m_.node))), None)
+    c.need(reg, "MachineLogic subclass-method registration")
+    sigs = [x for x in own_nodes(reg.node) if isinstance(x, ast.Call) and norm(x.func) == "inspect.signature" and x.args]
+    stores = [x for x in own_nodes(reg.node) if isinstance(x, ast.Assign) and isinstance(x.targets[0], ast.Subscript) and isinstance(x.targets[0].value, ast.Name)
+              and x.targets[0].value.id.startswith("registr")]
+    c.floor("R7", "registry stores in the subclass-method registration", len(stores), 1)
+
+    def _origin(e):
+        if isinstance(e, ast.Name):
+            vals = [getattr(a, "value", None) for a in assignments_to(reg, e.id)]
+            vals = [v for v in vals if v is not None]
+            if len(vals) == 1:
+                return norm(vals[0])
+        return norm(e)
+    handles_static = any(isinstance(x, (ast.Name, ast.Attribute)) and norm(x).split(".")[-1] in ("staticmethod", "classmethod", "getattr_static")
+                         for x in own_nodes(reg.node))
+    for st in stores:
+        same = any(_origin(sg.args[0]) == _origin(st.value) for sg in sigs)
+        ok = same or handles_static
+        c.ob("R7", ok, reg, "arity-of-registered-object", "the parameter count that selects the table is taken of the callable that is registered" if ok else
+             f"the table is selected by the signature of '{norm(sigs[0].args[0]) if sigs else '?'}' but '{norm(st.value)}' is what gets registered: for a "
+             f"@staticmethod / @classmethod member the two differ by the implicit first parameter, so a static guard is dropped, a static service "
+             f"is registered as a guard and a static action as a service", st)
     # ---- R6 builds are independent --------------------------------------------------------------------
     bd = p.cls("MachineBuilder").methods["build"]
     dc = [x for x in own_nodes(bd.node) if isinstance(x, ast.Call) and norm(x.func) == "copy.deepcopy" and "_states" in norm(x.args[0])]
